@@ -21,6 +21,7 @@ typedef struct {
 	int bound;			/* deviation bound (-1: none) */
 	int evq_depth;			/* depth of the handler fibre's event queue */
 	int prefill_aq;			/* atomic run requests for the yielder issued (and not drained) before the scenario starts */
+	int zkick;			/* the sleeper makes the yielder runnable (fibre_run) before it calls fibre_timeout */
 	int fine;			/* interrupts are also placed before every plain access of the main context to shared memory */
 } c06_cfg;
 extern c06_cfg C6;
